@@ -299,8 +299,14 @@ pub fn ev_func<S: Src>(s: &mut S, lo: u8, hi: u8, max_arg_bits: u32) {
     s.role(H_C05_FUNC, f as u32);
     let mut x = s.i64();
     if max_arg_bits < 64 {
-        // only for log2 (its loop runs once per significant bit)
-        s.assume(x >= 0 && x < (1i64 << max_arg_bits));
+        // only for log2, whose loop runs once per significant bit: small non-negative
+        // arguments, or (max_arg_bits == 0) the negative arguments -4..=-1, which take the
+        // full 64 iterations
+        if max_arg_bits == 0 {
+            s.assume(x >= -4 && x <= -1);
+        } else {
+            s.assume(x >= 0 && x < (1i64 << max_arg_bits));
+        }
     }
     let _ = &mut x;
     let mask = s.u8();
